@@ -157,7 +157,7 @@ def judge(pre, op, post, res, obs, meta):
     return v
 
 
-def observed(ctx, tree, op, now, prep_pl=False):
+def observed(ctx, tree, op, now, prep_pl=False, prep_link=False):
     base = ctx.base
     for d in ("cwd", "tmp", "dest"):
         ctx.fresh(d)
@@ -167,6 +167,17 @@ def observed(ctx, tree, op, now, prep_pl=False):
         r0 = ctx.run("flatten", [ctx.root, subst["dest"]], now=now - 5)
         pls = [p for p in sub.readback(subst["dest"]) if p.endswith(".mhl")]
         subst["pl"] = os.path.join(subst["dest"], pls[0]) if pls else os.path.join(subst["dest"], "missing.mhl")
+        sub.reset_mtimes(ctx.root)
+    if prep_link:
+        # a folder OUTSIDE the root that has a history of its own, reachable inside the root through a symbolic link
+        vault = os.path.join(base, "vault")
+        sub.rm(vault)
+        os.makedirs(vault)
+        with sub.REAL["open"](os.path.join(vault, "b.txt"), "wb") as f:
+            f.write(b"content of a file in the linked folder")
+        ctx.run("create", [vault, "-h", "md5"], now=now - 50)
+        os.symlink(vault, os.path.join(ctx.root, "external"))
+        sub.reset_mtimes(vault)
         sub.reset_mtimes(ctx.root)
     old_tmp = os.environ.get("TMPDIR")
     os.environ["TMPDIR"] = os.path.join(base, "tmp")
@@ -184,7 +195,7 @@ def observed(ctx, tree, op, now, prep_pl=False):
 def eval_case(ctx, case):
     if "oracle" in case:   # a transition of a borrowed exploration
         return e1.eval_case(ctx, case)
-    res, post, obs = observed(ctx, case["tree"], case["op"], sub.NOW0 + 100, case.get("prep_pl", False))
+    res, post, obs = observed(ctx, case["tree"], case["op"], sub.NOW0 + 100, case.get("prep_pl", False), case.get("prep_link", False))
     vs = judge(case["tree"], case["op"], post, res, obs, {})
     for x in vs:
         x.case = case
@@ -292,6 +303,13 @@ def main(tier, seed):
             for op in command_forms(S[sname])[0]:
                 if op[1].get("root") is not None and "file" not in op[1]:
                     cases.append({"state": sname, "tree": S[sname], "op": [op[0], dict(op[1], spell="dotdot")]})
+    # a file named through a symbolic link to a folder outside the root (that folder has a history of its own): the record goes
+    # into the root's history, the linked history is not in scope
+    if "flat" in S:
+        c = ops.create
+        for op in (c("", ["xxh64"], sf=["external/b.txt"]), c("", ["md5"], sf=["external/b.txt", "a.txt"]), ["verify", {"root": "", "sf": "external/b.txt"}],
+                   ["info", {"root": "", "sf": ["external/b.txt"]}]):
+            cases.append({"state": "flat+linked-folder", "tree": S["flat"], "op": op, "prep_link": True})
     res = eng.pmap(work, cases)
     for case, (vs, ex) in zip(cases, res):
         eng.add_viols(vs)
